@@ -41,6 +41,11 @@ if ENABLE_BUILDERS:
     METHODS = METHODS + BUILDERS
 COMPARERS = [("__eq__", "MEq", "gen_eq"), ("__ne__", "MNe", "gen_ne"),
              ("sortedvalues", "MSortedValues", "gen_sortedvalues")]
+CTORS = [("__init__", "MInit", "gen_init"), ("fromkeys", "MFromKeys", "gen_fromkeys"),
+         ("__reduce_ex__", "MReduceEx", "gen_reduce_ex")]
+COMPARERS = COMPARERS + CTORS
+STAR_OK = {"__init__"}                 # methods whose *args / **kwargs are translated (two arguments)
+CLASSMETHODS = {"fromkeys"}
 SV_TRY = ("try:\n    superself_iteritems = super().iteritems()\nexcept AttributeError:\n"
           "    superself_iteritems = super().items()")
 SV_MAP = "{k: sorted(v, key=key, reverse=reverse)[::-1] for k, v in superself_iteritems}"
@@ -68,13 +73,17 @@ class Method:
     def __init__(self, fn, sigs):
         self.fn, self.sigs, self.where = fn, sigs, "OrderedMultiDict." + fn.name
         a = fn.args
-        if a.vararg or a.kwonlyargs or a.posonlyargs or (a.kwarg and fn.name not in KWARGS_OK):
+        if a.kwonlyargs or a.posonlyargs or ((a.kwarg or a.vararg) and fn.name not in KWARGS_OK | STAR_OK) \
+                or (a.vararg and fn.name not in STAR_OK):
             self.bad("signature with * / ** / keyword-only parameters")
         self.vars = {}
         for p in a.args[1:]:
             self.vars[p.arg] = len(self.vars)
+        if a.vararg:
+            self.vars[a.vararg.arg] = len(self.vars)    # *args is passed as one argument (VArgs0 / VArgs1 / VArgsMany)
         if a.kwarg:
             self.vars[a.kwarg.arg] = len(self.vars)     # **F is passed as one more (mapping) argument
+        self.clsname = a.args[0].arg if fn.name in CLASSMETHODS else None
         self.set_add_alias = {}   # local name -> set variable (x = seen.add)
         self.dict_sd_alias = {}   # local name -> dict variable (x = lengths.setdefault)
         self.store_getitem_alias = set()   # local names bound to super().__getitem__
@@ -157,6 +166,15 @@ class Method:
             return "(EVar %d)" % self.var(e.id)
         if isinstance(e, ast.Tuple) and not e.elts:
             return "EEmptyTuple"
+        if isinstance(e, ast.Tuple) and len(e.elts) == 3 and ast.unparse(e.elts[0]) == "copyreg.__newobj__" \
+                and ast.unparse(e.elts[1]) == "(self.__class__,)":
+            return "(EReduce %s)" % self.expr(e.elts[2])
+        if isinstance(e, ast.Compare) and ast.unparse(e) == "len(args) > 1" and "args" in self.vars:
+            return "(ELenGt1 %s)" % self.expr(ast.Name(id="args"))
+        if isinstance(e, ast.Subscript) and ast.unparse(e) == "args[0]" and "args" in self.vars:
+            return "(EArgs0 %s)" % self.expr(ast.Name(id="args"))
+        if isinstance(e, ast.ListComp) and isinstance(e.elt, ast.Tuple) and len(e.elt.elts) == 2:
+            return self.comprehension(e, e.elt.elts[0], e.elt.elts[1], False)
         if isinstance(e, ast.BoolOp) and len(e.values) == 2:
             return "(%s %s %s)" % ("EOr" if isinstance(e.op, ast.Or) else "EAnd",
                                    self.expr(e.values[0], boolean=True), self.expr(e.values[1], boolean=True))
@@ -304,7 +322,8 @@ class Method:
             return "(EArgItems %s)" % self.expr(ast.Name(id="E"))
         if src == "set()":
             return "ESetNew"
-        if (ast.unparse(f) == "self.__class__" or (isinstance(f, ast.Name) and f.id in self.cls_alias)) \
+        if (ast.unparse(f) == "self.__class__" or (isinstance(f, ast.Name) and f.id in self.cls_alias)
+                or (isinstance(f, ast.Name) and self.clsname is not None and f.id == self.clsname)) \
                 and len(e.args) == 1 and not e.keywords:
             return "(ENewFrom %s)" % self.expr(e.args[0])
         if isinstance(f, ast.Name) and f.id == "sorted" and len(e.args) == 1 \
@@ -362,6 +381,8 @@ class Method:
             return None                                         # docstring
         if isinstance(s, ast.Pass):
             return "SPass"
+        if isinstance(s, ast.Expr) and ast.unparse(s) == "super().__init__()":
+            return "SSuperInit"
         if isinstance(s, ast.Try) and ast.unparse(s) == SV_TRY:      # the python-2 spelling falls back to items()
             self.store_items_alias.add("superself_iteritems")
             return None
@@ -542,6 +563,11 @@ class Method:
         if isinstance(s, ast.Raise) and s.cause is None and isinstance(s.exc, ast.Call) \
                 and isinstance(s.exc.func, ast.Name) and s.exc.func.id == "KeyError":
             return "SRaiseKeyError"
+        if isinstance(s, ast.Raise) and s.cause is None and isinstance(s.exc, ast.Call) \
+                and isinstance(s.exc.func, ast.Name) and s.exc.func.id == "TypeError":
+            return "SRaiseTypeError"
+        if isinstance(s, ast.Expr) and ast.unparse(s) == "super().__init__()":
+            return "SSuperInit"
         self.bad("statement", s)
 
 
@@ -566,11 +592,12 @@ def generate(repo):
         if py not in fns:
             raise Unsupported("method %s not found" % py)
         fn = fns[py]
-        if fn.decorator_list:
-            raise Unsupported("method %s is decorated" % py)
+        decos = [ast.unparse(d) for d in fn.decorator_list]
+        if decos != (["classmethod"] if py in CLASSMETHODS else []):
+            raise Unsupported("method %s: unexpected decorators %r" % (py, decos))
         sigs[py] = ([a.arg for a in fn.args.args[1:]], fn.args.defaults)
-        if (fn.args.kwarg is not None) != (py in KWARGS_OK):
-            raise Unsupported("method %s: ** parameter appeared or disappeared" % py)
+        if (fn.args.kwarg is not None) != (py in KWARGS_OK | STAR_OK) or (fn.args.vararg is not None) != (py in STAR_OK):
+            raise Unsupported("method %s: * / ** parameter appeared or disappeared" % py)
     out = ["(* generated by harness/translators/c01_src.py from the current boltons/dictutils.py; do not edit *)",
            "From Boltons Require Import Lib.Prelude Spec.C01_Spec Model.C01_Model Model.C01_Ptr Model.C01_PModel "
            "Model.C01_SrcLang.", ""]
